@@ -205,6 +205,17 @@ META = {
 
 # ---------------------------------------------------------------- the per-author bypass map (an input of the contract)
 def extra(rep, tier, seed, budget):
+    # the build status the gate reads on GitHub (build key github_actions) is the aggregation of the workflow runs:
+    # its contracts (C17) are run here as well
+    from pyvc import cli as _cli
+    from specs import c17 as _c17
+    _e17 = _c17.base_env()
+    for _c in _c17.contracts(_e17):
+        if _c.label.endswith('AggregatedWorkflowRuns.branch_state'):
+            _c.label = _c.label + ' [C06 github_actions verdict]'
+            _cli.handle_function(rep, _c17, _e17, _c, budget, _cli.load_lock().get('C06', {}))
+    rep.trusted.extend(_e17.trusted)
+    _c17.extra(rep, tier, seed, budget)   # bounded stand-in of the aggregation (labelled bounded)
     # job.author_bypass is an input above; the map it reads is built by settings.PrAuthorsOptions.deserialize,
     # checked by a bounded stand-in on the real function (labelled bounded, not counted as proved)
     from bounded import author_options
@@ -212,6 +223,9 @@ def extra(rep, tier, seed, budget):
 
 
 def replay_file(data):
+    if isinstance(data.get('case'), dict) and ('runs' in data['case'] or 'steps' in data['case'] or 'events' in data['case']):
+        from specs import c17 as _c17
+        return _c17.replay_file(data)
     from bounded import author_options
     if isinstance(data.get('case'), dict) and data.get('clause') in ('map', 'authors', 'crash', 'unknown'):
         return author_options.replay(data['case'])
